@@ -101,6 +101,10 @@ pub struct Program {
     pub bin_false: bool,
     /// surface-syntax variation bits (0 = canonical rendering)
     pub surface: u32,
+    /// `set -m` at the start: job control in a non-interactive shell changes process groups, not
+    /// which commands run, their `$?` or when the script aborts
+    #[serde(default)]
+    pub monitor: bool,
 }
 
 // ---------------------------------------------------------------------------------------------
@@ -622,6 +626,9 @@ pub fn render(p: &Program, surface: u32) -> String {
     }
     if p.errexit {
         out.push_str("set -e\n");
+    }
+    if p.monitor {
+        out.push_str("set -m\n");
     }
     let mut sf = Surface::new(surface);
     r_list(&p.body, &mut sf, &mut out);
